@@ -1,6 +1,8 @@
 import O4.Lemmas.Obfs4Ref
 import O4.Generated.Facts.Ntor
 import O4.Generated.Facts.Obfs4
+import O4.Generated.Facts.Framing
+import O4.Generated.Facts.Drbg
 /-!
 # C06 — the obfs4 wire format (handshake lengths, key schedule split, frame / nonce / packet
 layout, the unpadded seed frame), over the constants regenerated from the Go tree
@@ -538,5 +540,23 @@ theorem seed_frame_len (encKey lenSeed : Bytes) (hs : lenSeed.length = seedPacke
     rw [this, hlen, hs24]; decide
 
 example : (List.replicate 24 (3 : UInt8)).length = seedPacketPayloadLength := by decide
+
+
+/-- **structural fact, regenerated from the Go source on every run (go/ast)**: every package-level
+    variable (file-scope `var`) of the packages this property's mechanisms live in
+    (transports/obfs4, transports/obfs4/framing, common/drbg, common/ntor) is one of the names below — error values, fixed byte strings,
+    flags and function hooks that the code only reads after initialisation.  The models treat all
+    other state as owned by one connection / one object; a NEW package-level variable (a cache, a
+    pool, a scratch buffer, a pre-keyed hash shared "to save allocations") is how such state comes
+    to be shared between connections and goroutines, which compiles, passes the tests and typically
+    needs true parallelism or a multi-connection history to misbehave.  Adding one breaks this
+    theorem; the concurrent / multi-connection families of the harness then search for the failing
+    schedule. -/
+theorem no_new_package_level_state :
+    O4.Facts.Obfs4.pkg_vars ⊆ ["ErrInvalidHandshake", "ErrMarkNotFoundYet", "ErrNtorFailed", "ErrReplayedHandshake", "biasedDist", "zeroPadBytes"] ∧
+    O4.Facts.Framing.pkg_vars ⊆ ["ErrAgain", "ErrNonceCounterWrapped", "ErrTagMismatch"] ∧
+    O4.Facts.Drbg.pkg_vars ⊆ [] ∧
+    O4.Facts.Ntor.pkg_vars ⊆ ["mExpand", "protoID", "tKey", "tMac", "tVerify"] := by
+  decide
 
 end C06
